@@ -204,3 +204,54 @@ def run_sphinx_build(job):
                 "config": ADDR.sub(" at 0x?", cfg_after)[:2000]}
     finally:
         shutil.rmtree(d, ignore_errors=True)
+
+
+def run_sphinx_incremental(job):
+    """Build the project, apply an edit to one source file, build again in the same directories with a new application
+    (the environment is pickled by the first build and re-loaded by the second): returns the HTML after the second build."""
+    import shutil
+    import tempfile
+    import time
+
+    from sphinx.application import Sphinx
+    from sphinx.util.docutils import docutils_namespace, patch_docutils
+    files, conf, edit = job["files"], job.get("conf", ""), job["edit"]
+    d = tempfile.mkdtemp(prefix="mystverif-c15-")
+    try:
+        src = os.path.join(d, "src")
+        os.makedirs(src)
+        for name, content in files.items():
+            with open(os.path.join(src, name), "w", encoding="utf8") as f:
+                f.write(content)
+        with open(os.path.join(src, "conf.py"), "w") as f:
+            f.write("extensions = ['myst_parser']\nexclude_patterns = ['_build', 'inc_*']\nhtml_theme = 'basic'\n"
+                    "html_last_updated_fmt = None\nhtml_copy_source = False\nhtml_show_sourcelink = False\n" + conf)
+        warns = []
+        for phase in (0, 1):
+            if phase == 1:
+                p = os.path.join(src, edit["name"])
+                if "content" in edit:
+                    with open(p, "w", encoding="utf8") as f:
+                        f.write(edit["content"])
+                t = time.time() + 5
+                os.utime(p, (t, t))
+            status, warning = io.StringIO(), io.StringIO()
+            try:
+                with docutils_namespace(), patch_docutils():
+                    app = Sphinx(src, src, os.path.join(d, "out"), os.path.join(d, "doctrees"), "html", status=status, warning=warning,
+                                 freshenv=False, parallel=job.get("parallel", 0))
+                    app.build()
+            except BaseException as e:  # noqa: BLE001
+                return {"error": f"phase {phase}: {type(e).__name__}: {e}"[:300], "html": {}, "warnings": []}
+            warns.append(warning.getvalue())
+        html = {}
+        out = os.path.join(d, "out")
+        for root, _, fs in os.walk(out):
+            for fn in fs:
+                if fn.endswith(".html") and fn not in ("search.html", "genindex.html"):
+                    p = os.path.join(root, fn)
+                    t = open(p, encoding="utf8", errors="replace").read()
+                    html[os.path.relpath(p, out)] = TIMESTAMP.sub(r"\1", t.replace(src, "<SRC>"))
+        return {"html": html, "warnings": sorted(ADDR.sub(" at 0x?", warns[1]).replace(src + os.sep, "").splitlines())}
+    finally:
+        shutil.rmtree(d, ignore_errors=True)
